@@ -20,6 +20,8 @@ func init() {
 }
 
 func runC24(w *World, r *Report) {
+	defer c24LockedIsPositive(w, r)
+
 	r.Rule("R-C24-1", "call-site protocol: every ValidatePassword call (also through a thin wrapper) is behind CheckRateLimit's not-locked edge on the same user value, and its false / true outcome leads to RecordFailure / RecordSuccess before any return", 6)
 	r.Rule("R-C24-2", "guarded-by and keying: loginAttempts is accessed only with loginAttemptsMu held and only with a key derived from strings.ToLower(username parameter)", 5)
 	r.Rule("R-C24-3", "zero limit: in CheckRateLimit and RecordFailure every access to the attempts table is unreachable once the 'limit != 0' edge is removed", 2)
@@ -375,5 +377,113 @@ func runC24(w *World, r *Report) {
 		}
 	} else {
 		r.Anchor("R-C24-4", "router.RecordSuccess")
+	}
+}
+
+// c24LockedIsPositive: R-C24-5.  Callers decide "locked" by CheckRateLimit(...) > 0, so while the
+// lock is active the function must return a value that is positive by construction: a positive
+// constant, or <expression> + k with a constant k >= 1 (the seconds are truncated, and the last
+// second of a lockout truncates to 0).
+func c24LockedIsPositive(w *World, r *Report) {
+	r.Rule("R-C24-5", "while the lockout deadline lies in the future CheckRateLimit returns a value that is positive by construction (constant > 0, or … + k with k >= 1)", 1)
+
+	rp := w.pkg("internal/router")
+	if rp == nil {
+		return
+	}
+
+	fn := w.ssaFunc(rp, "CheckRateLimit")
+	if fn == nil {
+		r.Anchor("R-C24-5", "router.CheckRateLimit")
+
+		return
+	}
+
+	// the edges on which the deadline is known to be in the future: time.Now().Before(lockedUntil) true,
+	// time.Until(lockedUntil) > 0, lockedUntil.After(now) true
+	locked := cutEdges(fn, func(f Fact) bool {
+		switch f.Kind {
+		case "true":
+			if c, ok := f.V.(*ssa.Call); ok {
+				id := callID(c.Common())
+
+				return id == "time.Time.Before" || id == "time.Time.After"
+			}
+		case "cmp":
+			for _, v := range []ssa.Value{f.X, f.Y} {
+				if c, ok := v.(*ssa.Call); ok && callID(c.Common()) == "time.Until" {
+					return f.Op == token.GTR || f.Op == token.GEQ || f.Op == token.LSS || f.Op == token.LEQ
+				}
+			}
+		}
+
+		return false
+	})
+
+	if len(locked) == 0 {
+		r.Anchor("R-C24-5", "the test of the lockout deadline in CheckRateLimit")
+
+		return
+	}
+
+	positive := func(v ssa.Value) bool {
+		v = resolveLocal(v)
+
+		if k, isC := constInt(v); isC {
+			return k > 0
+		}
+
+		if b, ok := v.(*ssa.BinOp); ok && b.Op == token.ADD {
+			if k, isC := constInt(b.Y); isC && k >= 1 {
+				return true
+			}
+
+			if k, isC := constInt(b.X); isC && k >= 1 {
+				return true
+			}
+		}
+
+		if c, ok := v.(*ssa.Call); ok {
+			if bi, isB := c.Call.Value.(*ssa.Builtin); isB && bi.Name() == "max" {
+				for _, a := range c.Call.Args {
+					if k, isC := constInt(a); isC && k >= 1 {
+						return true
+					}
+				}
+			}
+		}
+
+		return false
+	}
+
+	n := 0
+
+	for _, ret := range returnsOf(fn) {
+		// the synthetic return of the recover block is not a path of the function
+		if fn.Recover != nil && ret.Block() == fn.Recover {
+			continue
+		}
+
+		// returns that are reachable only through a "locked" edge
+		if instrReachableAfterCut(fn, ret, locked) {
+			continue
+		}
+
+		n++
+
+		key := "router.CheckRateLimit|locked return is positive"
+		if n > 1 {
+			key += "#" + sprintInt(n)
+		}
+
+		if positive(retResult(ret, 0)) {
+			r.Discharge("R-C24-5", key, w.pos(ret.Pos()), "")
+		} else {
+			r.Violate("R-C24-5", key, w.pos(ret.Pos()), "the value returned while the account is locked is not positive by construction (it can round or truncate to 0): callers treat 0 as 'not locked', so in the last fraction of a second of a lockout the password is checked and a correct one logs in")
+		}
+	}
+
+	if n == 0 {
+		r.Anchor("R-C24-5", "a return of CheckRateLimit behind the lockout-deadline test")
 	}
 }
